@@ -20,6 +20,8 @@ structure JSt where
   fetchMaxBytes : Int := 32768
   storage : String := "none"
   retryMax : Nat := 1200
+  /-- C20: what the client has loaded: topic ↦ partition count -/
+  loaded : List (Bytes × Nat) := []
   -- C12
   prodMeta : List (Bytes × (List Int × Nat)) := []
   run : Option (Bytes × List Int) := none
@@ -594,6 +596,95 @@ def judgeC14 (ops : List OpRec) : List String :=
     { s with cluster := c' }) ({} : JSt)
   s.out
 
+/-! ### C20 -/
+
+def mentionsOf (r : Request) : List (Bytes × Int) :=
+  match r.body with
+  | .produce _ _ ts => ts.flatMap fun (t, ps) => ps.map fun (p, _) => (t, p)
+  | .fetch _ _ _ ts => ts.flatMap fun (t, ps) => ps.map fun p => (t, p.partition)
+  | .offsets _ ts => ts.flatMap fun (t, ps) => ps.map fun p => (t, p.partition)
+  | .offsetCommit _ _ _ _ ts => ts.flatMap fun (t, ps) => ps.map fun p => (t, p.partition)
+  | .offsetFetch _ ts => ts.flatMap fun (t, ps) => ps.map fun p => (t, p)
+  | .metadata _ => []
+  | .groupCoordinator _ => []
+
+def isLoaded (l : List (Bytes × Nat)) (t : Bytes) (p : Int) : Bool :=
+  match l.find? (·.1 == t) with
+  | some (_, n) => decide (0 ≤ p ∧ p.toNat < n)
+  | none => false
+
+def loadAll (c : Cluster) : List (Bytes × Nat) := c.topics.map fun t => (t.name, t.parts.length)
+
+def judgeC20 (ops : List OpRec) : List String :=
+  let s := ops.foldl (fun (s : JSt) op =>
+    let s := { s with cluster := applySetup s.cluster op.setup }
+    let reqs := framesOf op
+    let okRes := !op.result.startsWith "err" && op.result != "panic"
+    -- what is loaded *before* this operation's requests are judged
+    let explicitLoad : Option (List Bytes) := match op.toks with
+      | _ :: "load_metadata" :: ts => ts.mapM fromHex
+      | _ => none
+    -- 1. metadata requests may name topics only in an explicit load for exactly those names
+    let s := reqs.foldl (fun s (_, r) => match r.body with
+      | .metadata names =>
+        if names.isEmpty then s
+        else if some names == explicitLoad then s
+        else viol s "C20-metadata-names-topics" op s!"a metadata request names {names.map toHexTok} outside an explicit load for them"
+      | _ => s) s
+    -- 2. no other request mentions a topic / partition that is not loaded
+    let s := reqs.foldl (fun s (_, r) => (mentionsOf r).foldl (fun s (t, p) =>
+      if isLoaded s.loaded t p then s
+      else viol s "C20-mentions-unloaded" op s!"a request (api {r.header.apiKey}) mentions {toHexTok t}/{p}, not in the loaded metadata {s.loaded.map fun (t, n) => (toHexTok t, n)}") s) s
+    -- 3. calls that must fail locally
+    let s := match op.toks with
+      | _ :: "produce" :: _ :: _ :: _ :: args =>
+        match parseProduceArgs args with
+        | some pas =>
+          if pas.any (fun a => !isLoaded s.loaded a.topic a.partition) then
+            let s := if op.result == "err Kafka(3)" then s else viol s "C20-produce-not-rejected" op s!"result `{op.result}`"
+            if reqs.isEmpty then s else viol s "C20-produce-sent-before-failing" op "requests were sent by a produce call naming an unknown destination"
+          else s
+        | none => s
+      | _ :: "commit_offsets" :: _ :: args =>
+        match parseTPO args with
+        | some tpo =>
+          if s.storage != "none" && tpo.any (fun (t, p, _) => !isLoaded s.loaded t p) then
+            let s := if op.result == "err Kafka(3)" then s else viol s "C20-commit-not-rejected" op s!"result `{op.result}`"
+            if reqs.isEmpty then s else viol s "C20-commit-sent-before-failing" op "requests were sent by a commit naming an unknown partition"
+          else s
+        | none => s
+      | _ :: "fetch_group_offsets" :: _ :: args =>
+        match parseTP args with
+        | some tps =>
+          if s.storage != "none" && tps.any (fun (t, p) => !isLoaded s.loaded t p) then
+            let s := if op.result == "err Kafka(3)" then s else viol s "C20-group-fetch-not-rejected" op s!"result `{op.result}`"
+            if reqs.isEmpty then s else viol s "C20-group-fetch-sent-before-failing" op "requests were sent by a group offset fetch naming an unknown partition"
+          else s
+        | none => s
+      | [_, "fetch_topic_offsets", _, t] =>
+        match fromHex t with
+        | some t => if (s.loaded.any (·.1 == t)) then s else
+            if op.result == "err Kafka(3)" then s else viol s "C20-topic-offsets-unknown" op s!"result `{op.result}`"
+        | none => s
+      | _ => s
+    -- 4. update what is loaded
+    let s := trackSettings s op
+    match op.toks with
+    | [_, "load_metadata_all"] => if okRes then { s with loaded := loadAll s.cluster } else { s with loaded := [] }
+    | [_, "reset_metadata"] => { s with loaded := [] }
+    | _ :: "load_metadata" :: ts =>
+      if !okRes then s else
+      match ts.mapM fromHex with
+      | some names =>
+        if names.isEmpty then { s with loaded := (s.loaded.filter fun (t, _) => !(s.cluster.topics.any (·.name == t))) ++ loadAll s.cluster }
+        else { s with loaded := names.foldl (fun l n =>
+          (l.filter (·.1 != n)) ++ [(n, ((s.cluster.topic? n).map (·.parts.length)).getD 0)]) s.loaded }
+      | none => s
+    | "producer_create" :: _ => if okRes then { s with loaded := loadAll s.cluster } else s
+    | "consumer_create" :: _ => if okRes then { s with loaded := loadAll s.cluster } else s
+    | _ => s) ({} : JSt)
+  s.out
+
 def judge (prop : String) (lines : List String) : List String :=
   let ops := parseOps lines
   match prop with
@@ -603,6 +694,7 @@ def judge (prop : String) (lines : List String) : List String :=
   | "C10" => judgeC10 ops
   | "C11" => judgeC11 ops
   | "C14" => judgeC14 ops
+  | "C20" => judgeC20 ops
   | _ => []
 
 end Kafka.Judge
